@@ -48,7 +48,9 @@ class ExhaustedFailures(RuntimeError):
 
 
 def boltzmann_distribution(x, beta=1):
-    x = np.exp(beta * x)
+    x = beta * x
+    # shifted by the maximum for numerical stability (the distribution is the same)
+    x = np.exp(x - np.max(x))
     x = x / np.sum(x)
     return x
 
@@ -639,14 +641,12 @@ class Optimizer(object):
 
                 while len(idx) < n_points:
                     t = len(self.sampled)
-                    if t == 0:
+                    # uniform distribution when all values seen so far are identical
+                    delta = np.abs(self._max_value - self._min_value)
+                    if t == 0 or delta == 0:
                         beta = 0
                     else:
-                        beta = (
-                            gamma
-                            * np.log(t)
-                            / np.abs(self._max_value - self._min_value)
-                        )
+                        beta = gamma * np.log(t) / delta
 
                     probs = boltzmann_distribution(values, beta)
 
